@@ -373,7 +373,7 @@ def load():
                 raise TranslatorRefusal("%s: pattern %s changed: %s" % (FN, k, consts.get(k)))
     caught = caught_errors(methods)
     return {"names": names, "bodies": bodies, "iso": iso, "btou": btou, "symop_reader": tags["getSymOp"],
-            "label_scheme": tags["_expandAsymmetricUnit"], "caught": caught}
+            "label_scheme": tags["_expandAsymmetricUnit"], "caught": caught, "setter_order": tags["_parse_atom_site_label"]}
 
 
 def generate():
@@ -393,7 +393,8 @@ def generate():
            "(* exceptions that _parseCifDataSource turns into StructureFormatError *)",
            "Definition caught_errors : list string := [%s]." % "; ".join(cstr(x) for x in d["caught"]), "",
            "Definition the_symop_reader : symop_reader := %s." % d["symop_reader"],
-           "Definition the_label_scheme : label_scheme := %s." % d["label_scheme"], ""]
+           "Definition the_label_scheme : label_scheme := %s." % d["label_scheme"],
+           "Definition the_setter_order : setter_order := %s." % d["setter_order"], ""]
     return {"Gen/C07_CifSpec.v": "\n".join(out)}
 
 
